@@ -17,7 +17,9 @@ static int kind, fsm, nvars, rewrite, hold_status; static bool with_desc, crlf, 
 static int vr_fail, vw_fail, vr_calls, vw_calls;
 static int ninv; static char fresh0[256]; static bool have_fresh; static bool hold_pending;
 static char descr[600];
+static int TGT;      /* index of the command under test: 0, or 1 when a disabled command / a command of a disabled group comes first in the table */
 /* overflow cells: a READ of two variables on a capacity around the point where the separator lands on the last byte of the buffer; with a small event in flight next door */
+static int lead_disabled; static bool big_ubuf;
 static bool ovf, conc_event; static int ovf_digits, ovf_delta, conc_units; static long conc_step; static bool conc_accepted;
 
 /* observed units */
@@ -48,7 +50,7 @@ static void expect(char type, const char *text) { if (nwant < 63) { want[nwant].
 
 static cat_return_state policy(struct hcall *h)
 {
-        if (h->ci != 0) return CAT_RETURN_STATE_OK;
+        if (h->ci != TGT) return CAT_RETURN_STATE_OK;
         int k = ninv++;
         if (h->kind != kind || h->fsm != fsm) viol("C10", "wrong-handler", "handler kind %d on fsm %d invoked, expected kind %d on fsm %d", h->kind, h->fsm, kind, fsm);
         if (h->kind == K_READ || h->kind == K_TEST) {
@@ -88,6 +90,13 @@ static void run_cell(void)
 {
         static const char *kn[] = { "run", "read", "write", "test" };
         w_begin();
+        TGT = 0;
+        if (lead_disabled) {      /* the table starts with a command nobody may see: disabled itself, or the only member of a disabled group */
+                bool by_group = lead_disabled == 2;
+                struct cat_command *z = w_group(1, by_group);
+                z[0].name = xstr("+A"); z[0].run = h_run; z[0].read = h_read; z[0].disable = !by_group;
+                TGT = 1;
+        }
         struct cat_command *arr = w_group(2, false);
         struct cat_command *c = &arr[0];
         c->name = xstr("+C");
@@ -110,7 +119,10 @@ static void run_cell(void)
                 cap = need + 1 + rn(3);
         }
         if (ovf) { long k = 4 + ovf_digits + ovf_delta; cap = k < 6 ? 6 : (size_t)k; }      /* delta 0: "+C=<digits>" is capacity-1 characters long, the separator is the last byte */
-        w_buffers(shared ? cap * 2 + rn(2) : cap, shared, cap);
+        if (!shared && big_ubuf && fsm == FSM_U && !ovf) {      /* event cells: a command buffer that is smaller than the event texts, next to an event buffer that holds them */
+                size_t small = 6 + rn(10); if (small < w_min_cap()) small = w_min_cap();
+                w_buffers(small, false, cap + rn(40));
+        } else w_buffers(shared ? cap * 2 + rn(2) : cap, shared, cap);
         w_init((int)rn(2));
         conc_units = 0; conc_accepted = false; conc_step = conc_event ? (long)rn(40) : -1;
         POLICY = policy; VPOLICY = vpolicy; ON_UNIT = on_unit;
@@ -154,7 +166,7 @@ static void run_cell(void)
         /* ---------- run ---------- */
         in_reset();
         if (fsm == FSM_U) {
-                cat_status s = cat_trigger_unsolicited_event(W.at, W.cmd[0], kind == K_READ ? CAT_CMD_TYPE_READ : CAT_CMD_TYPE_TEST);
+                cat_status s = cat_trigger_unsolicited_event(W.at, W.cmd[TGT], kind == K_READ ? CAT_CMD_TYPE_READ : CAT_CMD_TYPE_TEST);
                 if (s != CAT_STATUS_OK) { inconclusive("trigger refused on an empty queue"); return; }
         } else {
                 static const char *l[4] = { "AT+C", "AT+C?", "AT+C=", "AT+C=?" };
@@ -165,7 +177,7 @@ static void run_cell(void)
         for (int i = 0; i < slen && o + 8 < sizeof descr; i++) o += (size_t)snprintf(descr + o, sizeof descr - o, " %d", script[i]);
         long bound = 4000 + 400 * (long)(slen + 2), i; bool quiet = false;
         for (i = 0; i < bound; i++) {
-                if (i == conc_step && fsm == FSM_A) conc_accepted = cat_trigger_unsolicited_event(W.at, W.cmd[1], CAT_CMD_TYPE_READ) == CAT_STATUS_OK;
+                if (i == conc_step && fsm == FSM_A) conc_accepted = cat_trigger_unsolicited_event(W.at, W.cmd[TGT + 1], CAT_CMD_TYPE_READ) == CAT_STATUS_OK;
                 cat_status s = svc();
                 if (hold_pending) { hold_pending = false; if (cat_hold_exit(W.at, hold_status ? CAT_STATUS_ERROR : CAT_STATUS_OK) != CAT_STATUS_OK) viol("C14", "release-refused", "cat_hold_exit refused right after HOLD"); }
                 if (s == CAT_STATUS_OK && INPOS >= INLEN && i >= conc_step) { quiet = true; break; }
@@ -222,7 +234,7 @@ struct case_budget chk_budget(const char *tier)
 void chk_run_case(uint64_t seed, long c, bool is_sweep)
 {
         (void)seed;
-        vr_fail = vw_fail = -1; hold_status = 0; descr[0] = 0; ovf = false; conc_event = false;
+        vr_fail = vw_fail = -1; hold_status = 0; descr[0] = 0; ovf = false; conc_event = false; lead_disabled = 0; big_ubuf = false;
         if (is_sweep && c >= N_SWEEP_A) {      /* overflow cells: digits 1..10 x delta -2..+3 x FSM x code x bystander */
                 long k = c - N_SWEEP_A;
                 ovf = true; ovf_digits = 1 + (int)(k % 10); k /= 10; ovf_delta = (int)(k % 6) - 2; k /= 6; fsm = (int)(k % 2); k /= 2; conc_event = (k % 2) && fsm == FSM_A; k /= 2;
@@ -235,7 +247,7 @@ void chk_run_case(uint64_t seed, long c, bool is_sweep)
                 long cell = c / 631; decode_seq(c % 631);
                 int kf = (int)(cell % 6); kind = CELL_KIND[kf]; fsm = CELL_FSM[kf]; cell /= 6;
                 nvars = (int)(cell % 2); rewrite = (int)(cell / 2);
-                with_desc = (c & 1); crlf = (c & 2) != 0; hold_status = (int)((c >> 2) & 1); tight = ((c >> 3) & 3) == 0;
+                with_desc = (c & 1); crlf = (c & 2) != 0; hold_status = (int)((c >> 2) & 1); tight = ((c >> 3) & 3) == 0; lead_disabled = (int)((c >> 5) % 3); big_ubuf = ((c >> 4) & 1) != 0;
                 sch_eager(&RS); sch_eager(&WS);
         } else {
                 int kf = (int)rn(6); kind = CELL_KIND[kf]; fsm = CELL_FSM[kf];
@@ -247,6 +259,8 @@ void chk_run_case(uint64_t seed, long c, bool is_sweep)
                 if (chance(25)) vw_fail = (int)rn(3);
                 if (chance(50)) { sch_bern(&RS, 30 + rn(70), rnd()); sch_bern(&WS, 30 + rn(70), rnd()); }
                 if (fsm == FSM_A && chance(30)) conc_event = true;
+                if (chance(25)) lead_disabled = 1 + (int)rn(2);
+                big_ubuf = chance(50);
                 if (chance(12)) { ovf = true; kind = K_READ; nvars = 2; ovf_digits = 1 + (int)rn(10); ovf_delta = (int)rn(6) - 2; tight = false; }
         }
         if (fsm == FSM_U) for (int i = 0; i < slen; i++) if (script[i] == CAT_RETURN_STATE_HOLD) script[i] = CAT_RETURN_STATE_OK;   /* HOLD from an event handler is an unspecified cell (DESIGN 3.2) */
